@@ -526,6 +526,14 @@ def widths_desc(big=False):
                     r = gen_cpp_value(crng, d, ("struct", name))
                     if r:
                         jobs.append((name, r[0], r[1]))
+    # fixed arrays whose element count needs more than 16 bits (the count travels in the reflection record as Type.size)
+    for el, n, pad in ((("u", 1), 65537, 3), (("u", 8), 65536, 0), (("i", 16), 66000, 0)):
+        name = f"CT{k}"
+        k += 1
+        d.structs.append((name, ([("p", 0, ("u", pad))] if pad else []) + [("x", 1, ("arr", el, n)), ("q", 2, ("u", 3))]))
+        lo, hi = (0, (1 << el[1]) - 1) if el[0] == "u" else (-(1 << (el[1] - 1)), (1 << (el[1] - 1)) - 1)
+        py = dict({"x": [crng.randint(lo, hi) for _ in range(n)], "q": 5}, **({"p": (1 << pad) - 1} if pad else {}))
+        jobs.append((name, py, gen.to_model(d, ("struct", name), py)))
     for pad in (0, 3, 7):
         name = f"CT{k}"
         k += 1
@@ -553,7 +561,7 @@ def exercise(rep, prop, rng, d, g, build, nv, tier, twin_of=None, fixed=None):
                 if r:
                     jobs.append((name, r[0], r[1]))
     # canonical bytes from the Lean specification
-    model = run_codec_grouped([(wire, n, {"value": mv}) for n, py, mv in jobs])
+    model = run_codec_grouped([(wire, n, {"value": mv, "no_py": True}) for n, py, mv in jobs])
     lines = []
     # the reflection-loaded codec answers too: always for C13; for C15 (field order in every back end) when the schema's
     # enumerators fit the i32 of the reflection record (recorded finding enumerator-beyond-i32 otherwise)
